@@ -10,6 +10,7 @@ pub proof fn lemma_written_name_reads_back(f: ZipFileData)
         decode_text(cdh_of(f, 20).flags, cdh_of(f, 20).name) == f.file_name@,
 {
     lemma_flags_meaning(f);
+    lemma_cflags_meaning(f);
     let fl = flags_of(f);
     assert((fl & (1u16 << 11) != 0) == (fl & 0x0800 != 0)) by(bit_vector);
     if f.file_name.is_ascii() {
